@@ -120,7 +120,21 @@ def run(ctx):
         for d in "19":
             texts += ["#line " + d * n + "\nab c", "# " + d * n + ' "g.h"\nab', "x\n#line " + d * n, "# " + d * n + ' "g.h" ' + d * n + "\nq",
                       "#line " + d * n + "u\nab"]
-    ctx.rule("all strings of length <= %d over the 20-character alphabet %r (exhaustive) + #line / linemarker directives whose numbers have 1..4301 digits; non-trivial = contains a non-blank character" % (k, ALPHABET20))
+    # a word that merely begins like a directive name is an identifier after a '#', not a directive:
+    # '#' and the whole word must come out as tokens, and what follows keeps its line
+    lookalikes = []
+    for name in ("pragma_once", "pragmatic", "pragma2", "pragmas", "line5", "lineno", "lines", "line_", "linex", "line7"):
+        for fmt in ("#%s\nx", "# %s 3\nx", "#%s \"o.c\"\nx", "  #\t%s\nx", "a ;\n#%s\nx"):
+            lookalikes.append((fmt % name, name))
+    for t, name in lookalikes:
+        pp = project(py_scan(t))
+        toks = [p for p in pp if p[0] == "T"]
+        line_x = str(t.count("\n") + 1)
+        if not any(p[1] == "PPHASH" for p in toks) or not any(p[1] == "ID" and p[2] == name for p in toks) \
+                or not any(p[1] == "ID" and p[2] == "x" and p[3] == line_x for p in toks):
+            ctx.violation("'#' followed by the identifier %r (not a directive name) is not returned as '#', %r and the following tokens on their lines: %r" % (name, name, [p[1:4] for p in toks][:6]), {"kind": "arbitrary", "text": t})
+    ctx.count(len(lookalikes), nontrivial_n=len(lookalikes))
+    ctx.rule("all strings of length <= %d over the 20-character alphabet %r (exhaustive) + #line / linemarker directives whose numbers have 1..4301 digits + '#' followed by 10 identifiers that begin like 'pragma' / 'line' in 5 layouts; non-trivial = contains a non-blank character" % (k, ALPHABET20))
     py = pmap(py_scan, texts)
     nontriv = sum(1 for t in texts if t.strip(" \t\n"))
     ctx.count(len(texts), nontrivial_n=nontriv)
